@@ -4,4 +4,5 @@ INVARIANT TriangleBounds
 INVARIANT TailHead
 INVARIANT Rotation
 INVARIANT ExplicitHeadingWins
+INVARIANT LayoutIrrelevant
 CHECK_DEADLOCK FALSE
